@@ -138,7 +138,7 @@ def lemma_ident(rep, F, L):
                     got[v_[1]] = len([x for x in walk(a["body"]) if call_is(x, "optimiser::coalesce")])
                 if v_ and v_[1] == "Identifier":
                     s = show(a["body"])
-                    chk(rep, L, "L-IDENT", s == "Clone::clone(<T>::expect(<K, V, S, A>::get(identifiers, i), could not get identifier))", "L-IDENT/coalesce-lookup", a["sp"], "coalesce replaces an identifier by its definition", s[:80])
+                    chk(rep, L, "L-IDENT", s == "Clone::clone(<T>::expect(<K, V, S, A>::get(identifiers, i), \"..\"))", "L-IDENT/coalesce-lookup", a["sp"], "coalesce replaces an identifier by its definition", s[:80])
             leaves = [pat_str(a["pat"]) for a in m["arms"] if not variant_of(a["pat"]) or strip_ref(a["pat"]).get("k") == "Or"]
         chk(rep, L, "L-IDENT", got == want, "L-IDENT/coalesce-congruence", co.sp, "coalesce recurses into every child of every composite node", str(got))
 
@@ -278,7 +278,7 @@ def lemma_shape(rep, F, L):
                         continue
                     if lf.get("k") == "Adt" and lf["adt"] == "parser::Expression" and lf["variant"] in PRED:
                         continue
-                    if show(lf) == "<T>::expect(Iterator::next(IntoIterator::into_iter(group)), could not get expression)":
+                    if show(lf) == "<T>::expect(Iterator::next(IntoIterator::into_iter(group)), \"..\")":
                         continue
                     okv = False
         chk(rep, L, "L-SHAPE", okv, "L-SHAPE/mapping-entry-value", pm.sp, "every mapping entry becomes a predicate node (or a member of `group`)", "")
@@ -434,6 +434,33 @@ def lemma_matrix(rep, F, L):
                         # cell rebuilt from a lookup entry (whose right side is a literal by L-MATRIX/lookup-insert)
                         okr = okr or strip_ref(subpat(alt, 2)).get("id") == rid
             chk(rep, L, "L-MATRIX", okr, "L-MATRIX/cell-right-literal#%d" % ncell, n["sp"], "a comparison cell compares its key with a literal (no second field is looked up in the cache)", show(right))
+            # the cell keeps the operand kind of the conjunct it replaces: Cast(_, kind) -> Cast(key, kind), Field(_) -> Field(key)
+            left = [x for x in n["fields"] if x["name"] == "0"][0]["e"]
+            lx = peel(left)
+            if lx.get("k") == "Call" and (lx.get("fn") or "").endswith("Box::<T>::new"):
+                lx = peel(lx["args"][0])
+            src_kind = None
+            kind_id = None
+            for e in q.context(p, n):
+                if e[0] != "arm":
+                    continue
+                for alt in or_pats(e[1]):
+                    a0 = strip_ref(alt)
+                    cand = a0
+                    if a0.get("k") == "Leaf" and len(a0["sub"]) == 2:
+                        cand = strip_ref(subpat(a0, 0))
+                    vv = variant_of(cand)
+                    if vv and vv[0] == "Expression" and vv[1] in ("Cast", "Field"):
+                        src_kind = vv[1]
+                        if vv[1] == "Cast":
+                            kb = strip_ref(subpat(cand, 1))
+                            kind_id = kb.get("id") if kb and kb.get("k") == "Bind" else None
+            okk = lx.get("k") == "Adt" and lx["variant"] == src_kind
+            if okk and src_kind == "Cast":
+                kf = peel([x for x in lx["fields"] if x["name"] == "1"][0]["e"])
+                kv = q.var_id(kf["args"][0]) if call_is(kf, "Clone::clone") else q.var_id(kf)
+                okk = kv is not None and kv == kind_id
+            chk(rep, L, "L-MATRIX", okk, "L-MATRIX/cell-keeps-operand-kind#%d" % ncell, n["sp"], "a comparison cell keeps the cast/field kind of the conjunct it was built from", "%s from %s" % (show(left)[:60], src_kind))
     chk(rep, L, "L-MATRIX", ncell == 4, "L-MATRIX/cell-sites", mf.sp, "four comparison-cell constructors", str(ncell))
     # solver side
     for fname in ("solver::solve_expression", "solver::match_all", "solver::match_of"):
@@ -453,7 +480,7 @@ def lemma_matrix(rep, F, L):
     cf = F.fn("<solver::Cache<'_> as document::Document>::find")
     if cf is not None:
         s = show(cf.body)
-        chk(rep, L, "L-MATRIX", s == "{let $i = (<T>::expect(Iterator::nth(<impl str>::chars(key), 0), could not get key) as u32); Clone::clone(Index::index(self.0, (i as usize)))}", "L-MATRIX/cache-decode", cf.sp,
+        chk(rep, L, "L-MATRIX", s == "{let $i = (<T>::expect(Iterator::nth(<impl str>::chars(key), 0), \"..\") as u32); Clone::clone(Index::index(self.0, (i as usize)))}", "L-MATRIX/cache-decode", cf.sp,
             "Cache::find indexes by the key's first char (inverse of char::from_u32(column index).to_string())", s[:100])
     # the Matrix node is built once, from (columns, rows)
     mats = [n for name, f in F.fns.items() if f.thir is not None and not name.startswith("<") for n in walk(f.body) if n.get("k") == "Adt" and n["adt"] == "parser::Expression" and n["variant"] == "Matrix"]
@@ -570,6 +597,7 @@ def run(rep):
     lemma_shape(rep, F, L)
     lemma_matrix(rep, F, L)
     lemma_lockstep(rep, F, L)
+    panic.LOCKSTEP_OK = L.ok["L-LOCKSTEP"]
     run_panic(rep, F, ["OPT", "MATCH", "VALIDATE"], floor=68, extra_rules=make_rules(F, L))
     rep.extra["lemmas"] = dict(L.ok)
     rep.floor("L-IDENT", 10)
